@@ -17,3 +17,48 @@ SVH_CMD(analyze) {
     out << "NDET " << dem.count_detectors() << " NOBS " << dem.count_observables() << "\n";
     out << dem.str() << "\n";
 }
+
+// #revloop ; circuit whose FIRST top-level REPEAT block is the loop under test. The instructions after it are undone first,
+// then the block is undone once with undo_loop (folding) and once with undo_loop_by_unrolling; both states are printed.
+static std::string tracker_state(const SparseUnsignedRevFrameTracker &t) {
+    std::ostringstream ss;
+    ss << "m=" << t.num_measurements_in_past << " d=" << t.num_detectors_in_past;
+    for (size_t q = 0; q < t.xs.size(); q++) {
+        ss << " x" << q << "=";
+        for (auto e : t.xs[q]) ss << e.str() << ",";
+        ss << " z" << q << "=";
+        for (auto e : t.zs[q]) ss << e.str() << ",";
+    }
+    for (const auto &kv : t.rec_bits) {
+        if (kv.second.empty()) continue;
+        ss << " r" << kv.first << "=";
+        for (auto e : kv.second) ss << e.str() << ",";
+    }
+    return ss.str();
+}
+SVH_CMD(revloop) {
+    Circuit c(req.payload());
+    size_t loop_index = SIZE_MAX;
+    for (size_t k = 0; k < c.operations.size(); k++) {
+        if (c.operations[k].gate_type == GateType::REPEAT) {
+            loop_index = k;
+            break;
+        }
+    }
+    if (loop_index == SIZE_MAX) {
+        out << "NOLOOP\n";
+        return;
+    }
+    SparseUnsignedRevFrameTracker t(c.count_qubits(), c.count_measurements(), c.count_detectors(), false);
+    for (size_t k = c.operations.size(); k-- > loop_index + 1;) {
+        t.undo_gate(c.operations[k], c);
+    }
+    const auto &op = c.operations[loop_index];
+    const Circuit &body = op.repeat_block_body(c);
+    uint64_t reps = op.repeat_block_rep_count();
+    SparseUnsignedRevFrameTracker t1 = t, t2 = t;
+    t1.undo_loop(body, reps);
+    t2.undo_loop_by_unrolling(body, reps);
+    out << "FOLD " << tracker_state(t1) << "\n";
+    out << "UNROLL " << tracker_state(t2) << "\n";
+}
